@@ -122,7 +122,7 @@ class SeqAlg:
 
     def sym(self, t):
         """symbol name of an atom in polynomial comparisons"""
-        if t[0] in ("cnt", "pc", "gv"):
+        if t[0] in ("cnt", "pc", "gv", "digits"):
             if t not in self.names:
                 self.names[t] = f"{t[0]}{len(self.names)}"
             return self.names[t]
@@ -431,20 +431,27 @@ class SeqAlg:
             if fn == "zip" and len(node.args) == 2 and not node.keywords:
                 a, b = self.as_comp(node.args[0], env), self.as_comp(node.args[1], env)
                 for x, y, swap in ((a, b, False), (b, a, True)):
-                    # y an unfiltered range: its i-th element is lo + step * i; the lengths must agree (zip would silently drop the excess)
-                    if len(y.gens) == 1 and not y.conds and y.elt == y.gens[0][0]:
+                    # y indexed by an unfiltered range: its i-th element is elt(lo + step * i); the lengths must agree (zip silently drops the excess)
+                    if len(y.gens) == 1 and not y.conds:
                         v, lo, hi, step = y.gens[0]
                         ylen = ("bin", "-", hi, lo) if step == 1 else ("bin", "-", lo, hi)
-                        if not self.same(ylen, self.cnt(x.gens, x.conds)):
+                        xlen = self._noted(self.cnt(x.gens, x.conds))
+                        if not self.same(ylen, xlen):
+                            py, px = self.poly(ylen), self.poly(xlen)
+                            dig = {n_ for t_, n_ in self.names.items() if t_[0] == "digits"}
+                            if py is not None and px is not None and any(self._poly_mentions(q, d) for q in (py, px) for d in dig):
+                                raise Mismatch(f"zip({ast.unparse(node.args[0])[:40]}, {ast.unparse(node.args[1])[:40]})", "two sequences of the same length, element i paired with element i",
+                                               "the length of one side is the number of digit groups of a mask value: leading all-zero groups are not produced, so the pairing shifts (or drops elements) whenever the mask starts with zeros")
                             continue
                         pos = self.pc(x.gens, x.conds)
                         self._note(pos)
-                        ye = ("bin", "+", lo, pos) if step == 1 else ("bin", "-", lo, pos)
+                        at = ("bin", "+", lo, pos) if step == 1 else ("bin", "-", lo, pos)
+                        ye = subst(y.elt, {v: at})
                         return Comp(x.gens, x.conds, ("tuple", (ye, x.elt) if swap else (x.elt, ye)))
                 raise Unsupported("zip of sequences whose positions cannot be related")
             if fn == "reversed" and len(node.args) == 1:
                 c = self.as_comp(node.args[0], env)
-                if len(c.gens) == 1 and not c.conds and c.elt == c.gens[0][0]:
+                if len(c.gens) == 1 and not c.conds:
                     v, lo, hi, step = c.gens[0]
                     nv = self.fresh()
                     if step == 1:
@@ -453,7 +460,7 @@ class SeqAlg:
                         g = (nv, ("bin", "+", hi, ("const", 1)), ("bin", "+", lo, ("const", 1)), 1)
                     self._gv_ranges[nv] = (g[1], g[2], g[3])
                     self.sym(nv)
-                    return Comp((g,), (), nv)
+                    return Comp((g,), (), subst(c.elt, {v: nv}))
                 raise Unsupported("reversed of a filtered sequence")
             if fn in ("list", "tuple", "iter") and len(node.args) == 1:
                 return self.as_comp(node.args[0], env)
@@ -626,12 +633,50 @@ class SeqAlg:
         if isinstance(s, ast.For):
             self.loop(s, env, conds)
             return
+        if isinstance(s, ast.While) and not self.loop_stack and not conds:
+            self.peel(s, env)
+            return
         if isinstance(s, (ast.Pass,)):
             return
         if isinstance(s, ast.Return) and not self.loop_stack and not conds:
             env["__return__"] = self.expr(s.value, env) if s.value is not None else ("const", None)
             return
         raise Unsupported(f"statement {type(s).__name__}")
+
+    def peel(self, s: ast.While, env):
+        """while m: L.append(e(m)); m >>= k   - L receives one element per k-bit group of m, lowest group first, until the rest of m is zero:
+        the number of elements is the number of groups up to the highest set bit (leading all-zero groups produce nothing)."""
+        t = s.test
+        if isinstance(t, ast.Compare) and len(t.ops) == 1 and isinstance(t.ops[0], (ast.NotEq, ast.Gt)) and isinstance(t.comparators[0], ast.Constant) and t.comparators[0].value == 0:
+            t = t.left
+        if not isinstance(t, ast.Name) or s.orelse or len(s.body) != 2:
+            raise Unsupported("while loop")
+        m = t.id
+        app = [x for x in s.body if isinstance(x, ast.Expr) and isinstance(x.value, ast.Call) and isinstance(x.value.func, ast.Attribute) and x.value.func.attr == "append" and len(x.value.args) == 1 and self._key(x.value.func.value)]
+        shf = [x for x in s.body if (isinstance(x, ast.AugAssign) and isinstance(x.op, ast.RShift) and isinstance(x.target, ast.Name) and x.target.id == m)
+               or (isinstance(x, ast.Assign) and len(x.targets) == 1 and isinstance(x.targets[0], ast.Name) and x.targets[0].id == m and isinstance(x.value, ast.BinOp) and isinstance(x.value.op, ast.RShift) and isinstance(x.value.left, ast.Name) and x.value.left.id == m)]
+        if len(app) != 1 or len(shf) != 1 or m not in env:
+            raise Unsupported("while loop")
+        lk = self._key(app[0].value.func.value)
+        o = self.obj(env.get(lk))
+        if o is None or o.kind != "list" or o.comp is not None:
+            raise Unsupported("while loop appends to something that is not a new empty list")
+        knode = shf[0].value if isinstance(shf[0], ast.AugAssign) else shf[0].value.right
+        k = self.expr(knode, env)
+        if any(isinstance(n, ast.Name) and n.id in (m, lk) for n in ast.walk(knode)):
+            raise Unsupported("while loop")
+        m0 = env[m]
+        j = self.fresh()
+        digits = ("digits", m0, k)
+        self.sym(digits)
+        self._gv_ranges[j] = (("const", 0), digits, 1)
+        self.sym(j)
+        after = s.body.index(app[0]) > s.body.index(shf[0])
+        cur = ("bin", ">>", m0, ("bin", "*", k, ("bin", "+", j, ("const", 1)) if after else j))
+        e2 = dict(env)
+        e2[m] = cur
+        o.comp = Comp(((j, ("const", 0), digits, 1),), (), self.expr(app[0].value.args[0], e2))
+        env[m] = ("const", 0)
 
     def _assign(self, target, val, env, conds, s):
         if isinstance(target, ast.Subscript):
